@@ -58,6 +58,10 @@ type c32State struct {
 	rejected int
 	emis     []c32Emission
 	bad      []string
+	// steady = the "sink always attached, flows always on time" regime: every rollover hands the sink over and
+	// flows are only dated into the current bucket, so every accepted flow is due for emission long before its
+	// bucket is recycled
+	steady bool
 }
 
 const c32Now0 = 100000
@@ -190,6 +194,49 @@ func c32Apply(s *c32State, e c32Ev) {
 				s.bad = append(s.bad, fmt.Sprintf("out-of-ring-flow-stored:flow at %d outside history [%d,%d) created a stored flow", t, boh, boh+n*I))
 			}
 		}
+	case "tick", "flowtick":
+		if e.Op == "flowtick" {
+			t := s.boh() + (n-2)*I + I - 1
+			s.r.AddFlow(c32Flow(1, t))
+			s.acc = append(s.acc, c32Acc{key: 1, bucket: s.origin + (t-s.origin)/I*I})
+		}
+		// the oldest bucket is about to be recycled: with the sink attached at every rollover and flows never late,
+		// whatever it holds must have been handed to the sink by now (completeness of each hand-off is checked in Receive)
+		boh0 := s.boh()
+		has := false
+		for _, a := range s.acc {
+			if a.bucket == boh0 {
+				has = true
+			}
+		}
+		if has {
+			covered := false
+			for _, em := range s.emis {
+				if em.start <= boh0 && boh0 < em.end {
+					covered = true
+				}
+			}
+			if !covered {
+				s.bad = append(s.bad, fmt.Sprintf("accepted-flow-never-emitted:the bucket starting at %d holds an accepted, on-time flow and is being recycled, but no emitted window ever covered it (sink attached at every rollover)", boh0))
+			}
+		}
+		s.r.Rollover(s)
+		s.rolls++
+		kept := s.acc[:0:0]
+		for _, a := range s.acc {
+			if a.bucket >= s.boh() {
+				kept = append(kept, a)
+			}
+		}
+		s.acc = kept
+		// forget emissions that lie wholly before the ring (keeps the state finite)
+		ke := s.emis[:0:0]
+		for _, em := range s.emis {
+			if em.end > s.boh()-n*I {
+				ke = append(ke, em)
+			}
+		}
+		s.emis = ke
 	case "roll", "rollnil":
 		if e.Op == "roll" {
 			s.r.Rollover(s)
@@ -403,6 +450,58 @@ func c32Narrow() []c32Ev {
 	return []c32Ev{{Op: "add", Key: 1, Cls: "now-2"}, {Op: "add", Key: 1, Cls: "now"}, {Op: "add", Key: 2, Cls: "head"}, {Op: "roll"}, {Op: "rollnil"}, {Op: "emit"}}
 }
 
+// c32RelKey is a time-shift-invariant state key for the steady regime: everything relative to the beginning of history.
+func c32RelKey(s *c32State) string {
+	var b strings.Builder
+	r := s.r
+	boh := s.boh()
+	fmt.Fprintf(&b, "h%d|", r.headIndex)
+	for i, bk := range r.buckets {
+		fmt.Fprintf(&b, "%d:%d p%v r%v f%d;", i, bk.StartTime-boh, bk.pushed, bk.ready, bk.Flows.Len())
+	}
+	for _, d := range r.diachronics {
+		for _, x := range d.Windows {
+			fmt.Fprintf(&b, "(%d,%d)", x.start-boh, x.PacketsIn)
+		}
+	}
+	b.WriteString("|")
+	for _, a := range s.acc {
+		fmt.Fprintf(&b, "%d,", a.bucket-boh)
+	}
+	b.WriteString("|")
+	for _, e := range s.emis {
+		fmt.Fprintf(&b, "E[%d,%d)", e.start-boh, e.end-boh)
+	}
+	fmt.Fprintf(&b, "|%d", len(s.bad))
+	return b.String()
+}
+
+// c32SteadySpec: sink attached at every rollover, at most one on-time flow per bucket; two events (idle tick / tick
+// with a flow). The key is time-shift invariant, so the search runs to its fixpoint: every pattern of idle and busy
+// buckets over any number of ring revolutions.
+func c32SteadySpec(g c32Cfg, depth int) *hbfs.Spec[*c32State, c32Ev] {
+	evs := []c32Ev{{Op: "tick"}, {Op: "flowtick"}}
+	return &hbfs.Spec[*c32State, c32Ev]{
+		Name: "ring-" + g.String() + "-graph-steady",
+		New: func() *c32State {
+			s := c32New(g)
+			s.steady = true
+			return s
+		},
+		Apply:      c32Apply,
+		Enabled:    func(s *c32State, d int) []c32Ev { return evs },
+		Key:        c32RelKey,
+		Check:      c32Check,
+		MaxDepth:   depth,
+		Workers:    8,
+		Nontrivial: func(s *c32State) bool { return s.rolls >= int64(g.N) && len(s.emis) > 0 },
+		Outcome: func(s *c32State) string {
+			return fmt.Sprintf("%s steady revolutions=%d emissions-in-ring=%d", g, min(s.rolls/int64(g.N), 3), min(len(s.emis), 4))
+		},
+		PanicKey: func(val string, hist []c32Ev) string { return "C32:panic" },
+	}
+}
+
 func c32Spec(g c32Cfg, depth int, tree bool) *hbfs.Spec[*c32State, c32Ev] {
 	return c32SpecEv(g, depth, tree, c32Events(g), "")
 }
@@ -435,6 +534,14 @@ func c32SpecEv(g c32Cfg, depth int, tree bool, evs []c32Ev, tag string) *hbfs.Sp
 	return sp
 }
 
+func c32SteadyConfigs(c *vk.Ctx) []c32Cfg {
+	cfgs := []c32Cfg{{N: 8, Interval: 10, PushAfter: 2, Aggregate: 2}}
+	if c.Thorough() {
+		cfgs = append(cfgs, c32Cfg{N: 12, Interval: 1, PushAfter: 2, Aggregate: 2}, c32Cfg{N: 9, Interval: 10, PushAfter: 1, Aggregate: 3})
+	}
+	return cfgs
+}
+
 func c32Configs(c *vk.Ctx) []c32Cfg {
 	// ring sizes / emission parameters for which the backwards walk of EmitFlowCollections never lands exactly on
 	// the head index (as with the production values 242/30/20); see the manifest note
@@ -465,11 +572,15 @@ func TestVerif_C32(t *testing.T) {
 				c.ToolError(err.Error())
 				return
 			}
-			for _, g := range []c32Cfg{{6, 10, 0, 2}, {8, 7, 2, 2}, {9, 10, 1, 3}} {
+			for _, g := range []c32Cfg{{6, 10, 0, 2}, {8, 7, 2, 2}, {9, 10, 1, 3}, {8, 10, 2, 2}, {12, 1, 2, 2}} {
 				if !strings.HasPrefix(d.Spec, "ring-"+g.String()+"-") {
 					continue
 				}
-				fails, err := hbfs.Replay(c32Spec(g, 99, false), d.History)
+				sp := c32Spec(g, 99, false)
+				if strings.HasSuffix(d.Spec, "-steady") {
+					sp = c32SteadySpec(g, 999)
+				}
+				fails, err := hbfs.Replay(sp, d.History)
 				if err != nil {
 					c.ToolError(err.Error())
 				}
@@ -498,6 +609,11 @@ func TestVerif_C32(t *testing.T) {
 		// deep pass with a 6-event alphabet: enough rollovers to recycle every bucket and revisit emitted windows
 		if c.Thorough() {
 			hbfs.Explore(c, c32SpecEv(c32Configs(c)[0], 9, false, c32Narrow(), "-deep"))
+		}
+		// steady regime over whole ring revolutions (idle and busy buckets in every pattern), to fixpoint
+		for _, g := range c32SteadyConfigs(c) {
+			st := hbfs.Explore(c, c32SteadySpec(g, 200))
+			c.Extra("steady_fixpoint:"+g.String(), st.Complete && st.Depth < 200)
 		}
 	})
 }
